@@ -525,7 +525,8 @@ def finalize(m, tier, seed):
                        skipped_outside_domain=c.get('v2/value-comparisons-skipped-outside-domain', 0), marginal=c.get('v2/marginal', 0),
                        assigned=c.get('v2/assigned', 0), attr_corruptions=c.get('v2/attr-corruptions', 0), constructs=sub('constructs/v2/')),
                v1=dict(classified=sub('v1/class/'), nutils_outcome_per_class=sub('v1/outcome/'), edits=sub('v1/corruptions/'),
-                       rejections=sub('v1/rejections/'), value_comparisons=c.get('v1/value-comparisons', 0),
+                       rejections=sub('v1/rejections/'), invalid_tree_edits_rejected_with_other_than_syntax_error=sub('v1/invalid-rejected-with/'),
+                       tree_mutations=c.get('v1/tree-mutations', 0), value_comparisons=c.get('v1/value-comparisons', 0),
                        skipped_outside_domain=c.get('v1/value-comparisons-skipped-outside-domain', 0), marginal=c.get('v1/marginal', 0),
                        eval_modes=sub('v1/mode/'), constructs=sub('constructs/v1/')),
                generator_discards=dict(sub('v1/generator-discards-'), no_leaf_or_letters=c.get('generator-discards', 0)), harness_selfcheck_failures=c.get('harness-selfcheck-failures', 0),
